@@ -991,6 +991,12 @@ def mask_strategy(draw):
     scale = 10.0 ** draw(st.floats(-3, 3))
     th0 = draw(st.floats(0, 2 * math.pi))
     kind = draw(st.sampled_from(["star", "star", "star", "small", "dart", "convex", "template", "template"]))
+    place = draw(st.sampled_from(["usual", "usual", "usual", "tiny", "far"])) if vf not in ("int", "f32") else "usual"
+    if place == "tiny":            # a polygon in tiny units (micro- to picometres), at the origin
+        scale, cx, cy = 10.0 ** draw(st.floats(-12, -6)), 0.0, 0.0
+    elif place == "far":           # a small polygon far from the origin (offset 1e3 .. 1e5 sizes)
+        off = scale * 10.0 ** draw(st.floats(3, 5))
+        cx, cy = off * draw(st.sampled_from([-1.0, 1.0])), off * draw(st.floats(-1.0, 1.0))
     if vf == "int":
         # integer vertices: an integer template, shifted and scaled by integers
         name = draw(st.sampled_from(sorted(_TEMPLATES)))
@@ -1032,6 +1038,14 @@ def mask_strategy(draw):
                   st.sampled_from([0.0, 0.0, 1e-6, -1e-6, 1e-3, -1e-3])),
     ).map(list), min_size=4, max_size=10))
     case = {"verts": verts, "probes": probes, "rot": k, "vf": vf, "mutate": draw(st.booleans())}
+    if place != "usual":
+        # coordinates carry ~1e-11 of the polygon's size there: probes keep 1e-3 sizes away from edges and chords
+        case["place"], case["margin"] = place, 1e-3
+        for pr in probes:
+            if pr[0] in ("vertex", "edge") and abs(pr[3]) < 1e-3:
+                pr[3] = math.copysign(1e-3, pr[3])
+            if pr[0] == "chord" and abs(pr[4]) < 2e-3:
+                pr[4] = -2e-3 if pr[4] < 0 else 2e-3
     if EXCLUDE_DIAG:
         # open finding: points exactly on a chord joining two vertices (a possible triangulation diagonal) are excluded
         # by construction - they are moved 1e-6*size off the chord
@@ -1134,11 +1148,11 @@ def _probe_points(case, verts, size, bbox, ctx):
             px, py = a[0] + t * ex - d * ey / L, a[1] + t * ey + d * ex / L
             if d == 0:
                 ctx.label("on-chord")
-        if EXCLUDE_DIAG and kind != "chord" and _near_chord(px, py, verts, 1e-9 * size):
+        if EXCLUDE_DIAG and kind != "chord" and _near_chord(px, py, verts, case.get("margin", 1e-9) * size):
             ctx.label("excluded_known")
             continue
         dist = min(_seg_dist(px, py, verts[i], verts[(i + 1) % n]) for i in range(n))
-        if not dist > 1e-9 * size:
+        if not dist > case.get("margin", 1e-9) * size * (0.999 if "margin" in case else 1.0):
             ctx.label("near-edge-skipped")
             continue
         out.append((px, py, dist))
